@@ -119,7 +119,10 @@ func EncodeHighLevel(msg string, shape SymbolShapeHint, minSize, maxSize *gozxin
 
 	encodingMode := HighLevelEncoder_ASCII_ENCODATION //Default mode
 	for context.HasMoreCharacters() {
-		encoders[encodingMode].encode(context)
+		e := encoders[encodingMode].encode(context)
+		if e != nil {
+			return nil, gozxing.WrapWriterException(e)
+		}
 		if context.GetNewEncoding() >= 0 {
 			encodingMode = context.GetNewEncoding()
 			context.ResetEncoderSignal()
